@@ -2,3 +2,4 @@ import Props.C07
 #print axioms C07.safe_set_covers
 #print axioms C07.safe_surface_ok_partial
 #print axioms C07.class_member_bare_name_missing
+#print axioms C07.safe_class_member_ok
